@@ -7,9 +7,10 @@ def fresh():
     shutil.rmtree(W, ignore_errors=True)
     subprocess.run(['git','-C','/repo','worktree','prune'],check=True)
     subprocess.run(['git','-C','/repo','worktree','add','--detach','-q',W,'HEAD'],check=True)
-def mk(kind,name,expect,file,old,new,note=''):
+def mk(kind,name,expect,file,old,new,note='',extra=None):
     if ONLY and not any(name.startswith(o) for o in ONLY): return
     edits = [(file,old,new)] if isinstance(file,str) else file
+    if extra: edits = edits + extra
     for f,o,n in edits:
         p=os.path.join(W,f)
         s=open(p).read()
@@ -79,5 +80,21 @@ mk(G,'g15_extend_memcpy','-',RB,'        self.buffer.extend(slice.iter().copied(
         left_part_of_queue[left_len - before_wrap.len()..].copy_from_slice(before_wrap);
         let right_len = right_part_of_queue.len();
         right_part_of_queue[right_len - after_wrap.len()..].copy_from_slice(after_wrap);''','a CORRECT two-memcpy implementation of extend (the seeded change C05_d is the incorrect one)')
+mk(G,'g16_extract_helper','-',MQ,'''        let next_position = self.next_position();
+        if target_position < next_position {
+            return Err(AppendError::Past);
+        }
+''','''        if self.is_in_the_past(target_position) {
+            return Err(AppendError::Past);
+        }
+''','a CORRECT extract-helper refactor (a new private helper is_in_the_past); expected: undecided (exit 2), never an alarm',extra=[(MQ,'''    /// Get the position of the record.
+    ///
+    /// Returns Ok(_) if the record was found''','''    fn is_in_the_past(&self, target_position: u64) -> bool {
+        target_position < self.next_position()
+    }
+
+    /// Get the position of the record.
+    ///
+    /// Returns Ok(_) if the record was found''')])
 shutil.rmtree(W, ignore_errors=True)
 subprocess.run(['git','-C','/repo','worktree','prune'],check=True)
